@@ -392,6 +392,30 @@ def byteAt (args : List String) : String :=
     | .fuel => "fuel"
   | _ => "bad-op"
 
+/-! ### the HashTable4 table maintenance: putEntry / getMatches on scripts -/
+
+def htScript (capacity exp : Nat) (steps : List (List String)) : List String := Id.run do
+  let g0 : T_hashTable := default
+  let mut g : T_hashTable := { g0 with t := Array.replicate (2 ^ exp) 0#64, data := Array.replicate capacity 0#32, front := 0#64,
+                                       mask := BitVec.ofNat 64 (2 ^ exp - 1), hoff := BitVec.ofInt 64 (-4), wordLen := 4#64 }
+  let mut out : Array String := #[]
+  for st in steps do
+    match st with
+    | ["p", h] =>
+      g := { g with hoff := g.hoff + 1#64 }
+      match hashTable_putEntry g (BitVec.ofNat 64 (h.toNat?.getD 0)) g.hoff with
+      | .ok g' => g := g'; out := out.push s!"{g.front.toInt} {(hashTable_buffered g).toInt}"
+      | .panic m => return (out.push ("panic:" ++ m)).toList
+      | .fuel => return (out.push "fuel").toList
+    | ["g", h] =>
+      match hashTable_getMatches 40 g (BitVec.ofNat 64 (h.toNat?.getD 0)) (Array.replicate 16 0#64) with
+      | .ok (n, pos) =>
+        out := out.push (" ".intercalate (toString n.toInt :: (List.range n.toNat).map (fun k => toString (pos.getD k 0#64).toInt)))
+      | .panic m => return (out.push ("panic:" ++ m)).toList
+      | .fuel => return (out.push "fuel").toList
+    | _ => out := out.push "bad-token"
+  return out.toList
+
 def handle (args : List String) : String :=
   match args with
   | "enc" :: limit :: script => match limit.toNat? with
@@ -403,6 +427,9 @@ def handle (args : List String) : String :=
     | some l, some lc, some lp, some pb => "|".intercalate (opScript l lc lp pb (steps.map (fun st => st.splitOn ",")))
     | _, _, _, _ => "bad-op"
   | "byteat" :: rest => byteAt rest
+  | "ht" :: cap :: exp :: steps => match cap.toNat?, exp.toNat? with
+    | some c, some e => "|".intercalate (htScript c e (steps.map (fun st => st.splitOn ",")))
+    | _, _ => "bad-op"
   | "codec" :: limit :: steps => match limit.toNat? with
     | some l => "|".intercalate (codecScript l (steps.map (fun st => st.splitOn ",")))
     | none => "bad-op"
